@@ -142,9 +142,28 @@ def run(ck):
         raise AnalysisError(f"{worker.where}: the worker does not return the result of a selection function")
     bfn, bapp, bpa = best
     brets = [pa for pa in explore(ck, bfn) if pa.outcome == "return"]
+    bparam0 = V(bfn.call_params()[0].name)
+    guarded_none = False
+    if len(brets) > 1:
+        # `if not candidates: return None` in front of the selection plays the role of the None default
+        def empty_guard(pa):
+            conds = [(c, tv) for c, tv, _ in pa.state.assumptions]
+            if pa.value != T.NONE or not conds:
+                return False
+            for c, tv in conds:
+                c0, pos = T.positive(c)
+                truth = tv if pos else (not tv)
+                if truth is not False or not T.contains(c0, bparam0):
+                    return False
+            return True
+        keep = [pa for pa in brets if not empty_guard(pa)]
+        guarded_none = len(keep) < len(brets)
+        brets = keep
     if len(brets) != 1:
-        raise AnalysisError(f"{bfn.where}: selection function expected to have a single return")
+        raise AnalysisError(f"{bfn.where}: selection function expected to have a single selecting return")
     sel = as_arg_extreme(ctx, brets[0].value)
+    if sel is not None and guarded_none and not sel["has_default"]:
+        sel["has_default"], sel["default"] = True, T.NONE
     wb = where(bfn, brets[0].node)
     bparam = V(bfn.call_params()[0].name)
     if sel is None:
@@ -257,7 +276,11 @@ def groupby_inputs_sorted(ck, rule, only_functions=None):
             continue
         if "groupby" not in fn.module.source:
             continue
-        if "groupby" not in ast.unparse(fn.node):
+        from ..norm import is_new_helper
+        if is_new_helper(fn):
+            continue              # read through its callers (a helper that did not exist on the pinned tree is inlined)
+        if "groupby" not in ast.unparse(fn.node) and not any(
+                isinstance(c, ast.Call) for c in ast.walk(fn.node)):
             continue
         seen = set()
         for pa in explore(ck, fn, unroll=(0, 1), max_paths=3000):
